@@ -287,6 +287,9 @@ func roundtripPlan(sig, tier string) []Unit {
 	for _, h := range emptyRequestHistories(sig) {
 		units = append(units, Unit{Opts: def, Mon: mon, Tag: "empty-requests", History: h})
 	}
+	for _, h := range idleGapHistories(sig, thorough) {
+		units = append(units, Unit{Opts: def, Mon: mon, Tag: "idle-gap", History: h})
+	}
 	// the largest in-domain batches (65,535 parents of each kind), as the first batch of a
 	// stream (always rebuilt at least once) and as a later batch that adds a column
 	for _, k := range []string{"items", "resources", "scopes"} {
@@ -495,6 +498,47 @@ func longEvictionHistory(x, y string, rounds int) []Letter {
 	return h
 }
 
+// idleGapHistories: a sub-stream (events, links, attribute tables, data point tables of one
+// kind, exemplars) is opened, then unused for `gap` consecutive batches, then used again with
+// the same schema, then once more.  Every gap length 1..36 and the lengths around 64, 100, 128 and 256 (quick);
+// every gap up to 300 (thorough).  Producer and consumer keep per-sub-stream state (IPC
+// writer/reader, dictionaries) that must survive any idle period, on both sides alike.
+func idleGaps(thorough bool) []int {
+	var gaps []int
+	top := 72
+	if thorough {
+		top = 300
+	}
+	if !thorough {
+		top = 36
+	}
+	for g := 1; g <= top; g++ {
+		gaps = append(gaps, g)
+	}
+	if !thorough {
+		// around the thresholds an implementation would plausibly pick
+		gaps = append(gaps, 63, 64, 65, 100, 128, 129, 256, 257)
+	}
+	return gaps
+}
+
+func idleGapHistories(sig string, thorough bool) [][]Letter {
+	a := historyAlphabet(sig, false)
+	plain := a[0]
+	var out [][]Letter
+	for gi, g := range idleGaps(thorough) {
+		// the rich letter alternates so that both are met at every few gap lengths
+		rich := []Letter{a[10], a[2], a[5], a[6]}[gi%4]
+		h := []Letter{rich}
+		for i := 0; i < g; i++ {
+			h = append(h, plain)
+		}
+		h = append(h, rich, plain, a[10])
+		out = append(out, h)
+	}
+	return out
+}
+
 // emptyRequestHistories: requests without any record (no resource at all, a
 // resource without scopes, a scope without records) before, between and after
 // ordinary batches.
@@ -510,6 +554,24 @@ func emptyRequestHistories(sig string) [][]Letter {
 		}
 	}
 	out = append(out, []Letter{e0}, []Letter{e1}, []Letter{e2}, []Letter{e0, e1, e2, e0})
+	// holes: a resource without scopes, a resource whose only scope is empty, or an empty scope,
+	// in first, middle and last position among containers that do hold records
+	it := func(k int) []int { return []int{k % 3} }
+	full := func(r, k int) Group { return Group{R: r, Scopes: []Scope{{S: 1, Items: it(k)}}} }
+	for _, hole := range []Group{{R: 2}, {R: 2, Scopes: []Scope{{S: 2}}}, {R: 2, Scopes: []Scope{{S: 2}, {S: 3}}}} {
+		for pos := 0; pos < 3; pos++ {
+			gs := []Group{full(1, 0), full(3, 1)}
+			gs = append(gs[:pos], append([]Group{hole}, gs[pos:]...)...)
+			l := Letter{Sig: sig, Groups: gs}
+			out = append(out, []Letter{l}, []Letter{a[1], l, a[2]}, []Letter{l, l})
+		}
+	}
+	for pos := 0; pos < 3; pos++ {
+		scs := []Scope{{S: 1, Items: it(0)}, {S: 3, Items: it(1)}}
+		scs = append(scs[:pos], append([]Scope{{S: 2}}, scs[pos:]...)...)
+		l := Letter{Sig: sig, Groups: []Group{{R: 1, Scopes: scs}, {R: 2, Scopes: scs}}}
+		out = append(out, []Letter{l}, []Letter{a[1], l, a[2]}, []Letter{l, l})
+	}
 	return out
 }
 
@@ -797,6 +859,14 @@ func framingPlan(tier string) []Unit {
 		for _, sig := range sigs() {
 			for _, h := range emptyRequestHistories(sig) {
 				units = append(units, Unit{Opts: def, Mon: mon, Tag: "empty-requests", History: h})
+			}
+		}
+		// sub-streams left idle for any number of batches and then used again
+		if z == 0 {
+			for _, sig := range sigs() {
+				for _, h := range idleGapHistories(sig, thorough) {
+					units = append(units, Unit{Opts: def, Mon: mon, Tag: "idle-gap-" + sig, History: h})
+				}
 			}
 		}
 		// one refused allocation inside the IPC write of any record of any batch, then two more batches
